@@ -216,6 +216,25 @@ def graph_case(run, seed, idx, mods, sizes, reps, cap=True):
                  sample=dict(desc, components=int(nc), threads=nt) if first else None)
         first = False
     numba.set_num_threads(min(4, numba.config.NUMBA_NUM_THREADS))
+    # the pair arrays in the index types files and compact tables use (a COO dump read back as uint32, int32 ...): the
+    # labels must be the same whatever integer type carries the graph.  Small graphs only (each type is a new numba
+    # specialisation, compiled once).
+    if n <= 5000 and len(i):
+        for dt in (np.int32, np.uint32, np.uint64) + ((np.uint16,) if n < 65000 else ()):
+            try:
+                with contextlib.redirect_stdout(io.StringIO()):
+                    nl, labels = properties.find_ND_labels(i.astype(dt), j.astype(dt), n)
+            except Exception:
+                run.count("pair_dtype_refused_" + np.dtype(dt).name)
+                continue
+            run.count("pair_dtype_runs")
+            lb = np.asarray(labels).astype(np.int64)
+            u = np.unique(lb)
+            if nl != nc or len(u) != nc or u[0] != 0 or u[-1] != nc - 1 or not np.array_equal(canon(lb), canon(lab)):
+                run.violation("find_ND_labels:pair-dtype:" + np.dtype(dt).name,
+                              "pairs given as %s: %d labels spanning %d..%d for %d components" % (np.dtype(dt).name, nl, int(u[0]), int(u[-1]), nc),
+                              dict(desc, pair_dtype=np.dtype(dt).name))
+                break
 
 
 def _merge_oracle(gl, nc, pk, omega, dty, scale):
@@ -507,6 +526,7 @@ def check(run, replay=None):
     run.require_counter("labelling_runs", 500)
     run.require_counter("merged_peaks_checked", 200)
     run.require_counter("tables_without_pairs", 2)
+    run.require_counter("pair_dtype_runs", 20)
     run.require_counter("find_uniq_after_graph_edit", 20)
     run.require_counter("tables_with_per_count_scale", 5)
     for nt in THREADS:
